@@ -6,6 +6,7 @@ import (
 	"fmt"
 	"os"
 	"path/filepath"
+	"runtime"
 	"sort"
 	"strings"
 	"time"
@@ -150,6 +151,25 @@ func (r *Report) Unresolve(what string) {
 		}
 	}
 	r.Unresolved = append(r.Unresolved, what)
+}
+
+// guard runs one rule; a rule that panics (a shape it did not anticipate) is recorded as
+// unresolved — the check then cannot vouch for the property (exit 2) — but the remaining rules of
+// the property still run and still report what they find.
+func guard(r *Report, rule func()) {
+	defer func() {
+		if e := recover(); e != nil {
+			_, file, line, _ := runtime.Caller(3)
+			for skip := 2; skip < 10; skip++ {
+				if _, f, l, ok := runtime.Caller(skip); ok && strings.Contains(f, "/colvet/rules") {
+					file, line = f, l
+					break
+				}
+			}
+			r.Unresolve(fmt.Sprintf("internal error in a rule (%v at %s:%d)", e, filepath.Base(file), line))
+		}
+	}()
+	rule()
 }
 
 func (r *Report) Note(format string, a ...any) {
